@@ -120,7 +120,7 @@ theorem gov_status (e : Gov.Env) (s : State) (v b x : Bool) :
     have h2 : step' s (.sudoStatus v b x) = s := by simp [step', step, withMinter, hm]
     rw [h2]
     unfold Gov.step'
-    simp [Gov.step, h1, bind, Except.bind, throw, throwThe, MonadExceptOf.throw]
+    simp [Gov.step, h1, throw, throwThe, MonadExceptOf.throw]
   | some m =>
     have h2 : step' s (.sudoStatus v b x) = { s with minter := some { m with status := ⟨v, b, x⟩ } } := by
       simp [step', step, withMinter, hm]
